@@ -591,6 +591,19 @@ func emitObs(w *caseWriter, o *pkgObs) {
 			w.line("cpioent %s %d %d %x", xs(e.Name), e.Mode, e.Size, md5.Sum(e.Data))
 		}
 	}
+	// C04: every tar stream of the package (up to 48 KiB each), for the tar container model
+	if emitCpio {
+		for _, t := range o.Tars {
+			if len(t.B) > 49152 {
+				continue
+			}
+			w.line("tar %s %d %s", xs(t.Name), b2i(t.Full), xs(string(t.B)))
+			flags, sizes := rawTarMembers(t.B)
+			for i := range flags {
+				w.line("tarent %s %d %d", xs(t.Name), flags[i], sizes[i])
+			}
+		}
+	}
 }
 
 // emitCpio: set for C04 runs only (the other properties sharing this emitter do not need the bytes)
@@ -705,6 +718,9 @@ func runPkgCase(w *caseWriter, id string, d pkgDesc, st *pkgStats, extra func(w 
 		}
 		w.line("impl ok")
 		w.line("rawlen %d", len(raw))
+		if emitCpio && (format == "deb" || format == "rpm") && len(raw) <= 65536 {
+			w.line("pkgbytes %s", xs(string(raw)))
+		}
 		if p, err := nfpm.Get(format); err == nil {
 			fi, _, _ := buildInfo(d.YAML, d.Env, format)
 			w.line("filename %s", xs(p.ConventionalFileName(fi)))
